@@ -687,14 +687,24 @@ class Executor(Evaluator):
 
     def bind_shape_syms(self, con, cenv):
         genv = {}
-        for p, t in con.types.items():
-            m = _TYPE_RE.match(t)
-            a = cenv.get(p)
-            if m and isinstance(a, (Arr, AExpr)):
-                dims = [d.strip() for d in m.group(2).split(",")]
-                for d, s in zip(dims, a.shape):
-                    if not d.lstrip("-").isdigit() and d not in genv:
-                        genv[d] = s
+
+        def rec(types, vals):
+            for p, t in types.items():
+                a = vals.get(p) if isinstance(vals, dict) else None
+                if isinstance(t, dict):
+                    if isinstance(a, dict):
+                        rec(t, a)
+                    continue
+                m = _TYPE_RE.match(t)
+                if m and isinstance(a, (Arr, AExpr)):
+                    dims = [d.strip() for d in m.group(2).split(",")]
+                    for d, s in zip(dims, a.shape):
+                        if not d.lstrip("-").isdigit() and d not in genv:
+                            genv[d] = s
+                elif m and isinstance(a, ListObj):
+                    pass
+
+        rec(con.types, cenv)
         return genv
 
     # ------------------------------------------------------------------ contract language
@@ -747,7 +757,10 @@ class Executor(Evaluator):
             p, q = truth(self.eval(a[0], st)), truth(self.eval(a[1], st))
             return v_eq(p, q) if (is_sym(p) or is_sym(q)) else p == q
         if name == "ite":
-            return v_ite(self.eval(a[0], st), self.eval(a[1], st), self.eval(a[2], st))
+            c = truth(self.eval(a[0], st))
+            if isinstance(c, bool):
+                return self.eval(a[1] if c else a[2], st)
+            return v_ite(c, self.eval(a[1], st), self.eval(a[2], st))
         if name == "old":
             s = st.old.fork()
             s.spec = True
